@@ -32,7 +32,7 @@ PROPS = {
     'C03': {
         'families': [{'name': 'verify', 'shards': {'quick': 4, 'thorough': 16}, 'seeds': {'quick': 1, 'thorough': 2}},
                      {'name': 'verifyexh', 'shards': {'quick': 8, 'thorough': 16}}],
-        'kinds': ['verify', 'sound'],
+        'kinds': ['verify', 'sound', 'pverify'],
         'lean_modules': ['UtreexoVerif.Props.C03', 'UtreexoVerif.Props.C03b'],
         'theorems': ['UtreexoVerif.Props.C03.verify_sound', 'UtreexoVerif.Props.C03.pollardVerify_sound',
                      'UtreexoVerif.Props.C03.mapVerify_sound', 'UtreexoVerif.Proofs.CalcSound.calc_sound'] +
@@ -48,7 +48,7 @@ PROPS = {
     'C04': {
         'families': [{'name': 'verify', 'shards': {'quick': 4, 'thorough': 16}, 'seeds': {'quick': 1, 'thorough': 2}},
                      {'name': 'verifyexh', 'shards': {'quick': 8, 'thorough': 16}}],
-        'kinds': ['verify', 'stumpupdate'],
+        'kinds': ['verify', 'stumpupdate', 'pverify'],
         'lean_modules': ['UtreexoVerif.Props.C04'],
         'theorems': ['UtreexoVerif.Props.C04.' + t for t in ['update_reject_atomic', 'rowFacts', 'calc_total', 'verify_total',
                      'pollardVerify_total', 'mapVerify_total', 'update_total', 'calc_total_uncond', 'verify_total_uncond',
